@@ -32,6 +32,23 @@
    recursive unlink removes exactly the given tree,           recursive_unlink_removes_exactly_subtree, cut_out_is_exact,
      never following symbolic links out of it                 unlink_never_follows_a_link, unlink_nonrecursive_keeps_contents
    (the hypothesis `well-formed tree` of the unlink theorem)  reachable_states_are_well_formed
+   Round 3 (functions of File / Directory the first rounds did not enter)
+   flush changes no byte and no cursor                        files_return_written_bytes and handles_of_every_mode_return_written_bytes
+                                                              (HFlush is one of the operations of a history)
+   static readAll(path): exactly the bytes, failure reported  read_all_of_path_returns_the_bytes, read_all_of_path_true_only_for_files
+     for anything that is no regular file (fix 10: also a     (a directory, a missing name, a dangling link answer false),
+     directory), nothing left behind                          read_all_of_path_changes_nothing
+   File::exists                                               exists_is_lstat, exists_of_plain_names, unlinked_file_no_longer_exists
+   getAbsolutePath over getCurrentDirectory / change          absolute_path_is_absolute, absolute_path_keeps_absolute,
+                                                              absolute_path_lexically_denotes (PathSpec.resolve), absolute_path_denotes_the_same
+                                                              (kernel walk), change_of_directory, change_keeps_current_directory_real
+   enumeration (open / read / close as a client of unlink's   wildcard_matcher_is_reference, enumeration_yields_exactly_the_entries,
+     readdir would use it): exactly the entries, each once,   enumeration_refuses_non_directories, enumeration_object_protocol,
+     right type, "." and ".." left out                        listed_entries_are_directory_entries, no_entry_listed_twice,
+                                                              all_entries_listed_without_filter
+   purge = recursive unlink + the ancestors it leaves empty   purge_removes_tree_and_empty_parents, purge_touches_only_below_first_name
+   failed operations report failure, touch nothing outside:   unlink_with_failing_call_only_removes_inside (any one of the rmdir / opendir /
+     Directory::unlink when a system call fails               readdir / unlink calls fails), unlink_failing_first_call_changes_nothing
    Not covered by a theorem (correspondence and the text judge of checks/C19.py only): paths through
    '.', '..' or symbolic links for unlink and for create_succeeds (those theorems are for texts of
    proper names through real directories; exists / rename / copy / open theorems and the other create
@@ -39,7 +56,8 @@
 *)
 From Coq Require Import ZArith List Bool.
 From Path Require Import PathSpec PathModel PathProofs RelProofs.
-From Path Require Import FsSpec FsModel FsTree FsWalk FsFile FsHandle FsDir FsCreate FsMkdirs FsMove FsCopy FsWf.
+From Path Require Import FsSpec FsModel FsListSpec FsTree FsWalk FsFile FsHandle FsDir FsCreate FsMkdirs FsMove FsCopy FsWf.
+From Path Require Import FsFault FsPurge FsList FsMisc.
 Import ListNotations.
 Local Open Scope Z_scope.
 
@@ -477,3 +495,287 @@ Example ex_rename :
   ok = true /\ get (root st') [G1; G2; G3; OUT; [115]; [110]] = Some (NFile [120;121]) /\
   sget (root st') (cwd demo ++ [[104]]) = None.
 Proof. vm_compute. repeat split; reflexivity. Qed.
+
+(* ---- round 3 -------------------------------------------------------------------------------------------- *)
+
+(* static File::readAll(path, data): a text that leads (through links) to a regular file gives true
+   and exactly the bytes of that file *)
+Theorem read_all_of_path_returns_the_bytes : forall st path d nm c,
+  resolve st true path = WAt d nm (Some SFile) -> get (root st) (d ++ [nm]) = Some (NFile c) ->
+  snd (f_readAll_path st path) = (true, c).
+Proof. exact readall_path_file. Qed.
+Print Assumptions read_all_of_path_returns_the_bytes.
+
+(* ... and true is said for nothing else: a directory (repair fixes/C19/10), a missing name, a
+   dangling link report failure *)
+Theorem read_all_of_path_true_only_for_files : forall st path c,
+  snd (f_readAll_path st path) = (true, c) ->
+  exists d nm, resolve st true path = WAt d nm (Some SFile) /\ get (root st) (d ++ [nm]) = Some (NFile c).
+Proof. exact readall_path_true. Qed.
+Print Assumptions read_all_of_path_true_only_for_files.
+
+(* whatever it answers: the tree, the current directory and every open handle are as before *)
+Theorem read_all_of_path_changes_nothing : forall st path, same_files st (fst (f_readAll_path st path)).
+Proof. exact readall_path_keeps. Qed.
+Print Assumptions read_all_of_path_changes_nothing.
+
+Theorem exists_is_lstat : forall st path,
+  f_exists st path = match resolve st false path with
+                     | WAt _ _ (Some _) | WDir _ _ => true
+                     | _ => false
+                     end.
+Proof. exact file_exists_is_lstat. Qed.
+Print Assumptions exists_is_lstat.
+
+Theorem exists_of_plain_names : forall st names c,
+  names_ok (names ++ [c]) -> (exists es, get (root st) (cwd st ++ names) = Some (NDir es)) ->
+  f_exists st (join (names ++ [c])) = is_some (sget (root st) ((cwd st ++ names) ++ [c])).
+Proof. exact file_exists_plain. Qed.
+Print Assumptions exists_of_plain_names.
+
+Theorem unlinked_file_no_longer_exists : forall st names c st',
+  names_ok (names ++ [c]) -> (exists es, get (root st) (cwd st ++ names) = Some (NDir es)) ->
+  wf_node (root st) = true ->
+  f_unlink st (join (names ++ [c])) = (st', true) ->
+  f_exists st (join (names ++ [c])) = true /\ f_exists st' (join (names ++ [c])) = false.
+Proof. exact unlink_then_not_exists. Qed.
+Print Assumptions unlinked_file_no_longer_exists.
+
+(* File::getAbsolutePath(p) = p when p is absolute, getCurrentDirectory() + '/' + p otherwise *)
+Theorem absolute_path_is_absolute : forall c p, starts_with_sep c = true -> isAbsolutePath (getAbsolutePath c p) = true.
+Proof. exact absolute_is_absolute. Qed.
+Print Assumptions absolute_path_is_absolute.
+
+Theorem absolute_path_keeps_absolute : forall c p, isAbsolutePath p = true -> getAbsolutePath c p = p.
+Proof. exact absolute_keeps_absolute. Qed.
+Print Assumptions absolute_path_keeps_absolute.
+
+(* lexically (the reference of part A): resolved from anywhere, the answer is where the relative
+   text leads from the place the current directory's text leads to *)
+Theorem absolute_path_lexically_denotes : forall c p cw,
+  starts_with_sep c = true -> isAbsolutePath p = false ->
+  PathSpec.resolve cw (components (getAbsolutePath c p)) =
+  PathSpec.resolve (PathSpec.resolve [] (components c)) (components p).
+Proof. exact absolute_lexical. Qed.
+Print Assumptions absolute_path_lexically_denotes.
+
+(* for the kernel (links and all): the answer leads where the argument leads *)
+Theorem absolute_path_denotes_the_same : forall st fl p,
+  cwd_real st -> p <> [] -> resolve st fl (f_absolute st p) = resolve st fl p.
+Proof. exact absolute_denotes. Qed.
+Print Assumptions absolute_path_denotes_the_same.
+
+(* Directory::change: true exactly when the text leads to a directory, which is then the current
+   one; false changes nothing; the tree and the handles are never touched *)
+Theorem change_of_directory : forall st dir st' b,
+  d_change st dir = (st', b) ->
+  root st' = root st /\ handles st' = handles st /\
+  (b = false -> st' = st /\ dir_place st dir = None) /\
+  (b = true -> dir_place st dir = Some (cwd st')).
+Proof. exact change_spec. Qed.
+Print Assumptions change_of_directory.
+
+Theorem change_keeps_current_directory_real : forall st dir st',
+  cwd_real st -> (exists es0, root st = NDir es0) -> d_change st dir = (st', true) -> cwd_real st'.
+Proof. exact change_keeps_cwd_real. Qed.
+Print Assumptions change_keeps_current_directory_real.
+
+(* the wildcard matcher of the kernel model is the reference relation FsSpec.matches *)
+Theorem wildcard_matcher_is_reference : forall p s, glob p s = true <-> matches p s.
+Proof. exact glob_matches. Qed.
+Print Assumptions wildcard_matcher_is_reference.
+
+(* Directory::open on a text that leads to a directory, then read until it says false: exactly
+   the reference listing (every entry the pattern selects, in directory order, with its type; "."
+   and ".." left out), the object still open at its end *)
+Theorem enumeration_yields_exactly_the_entries : forall st path pat only d es,
+  dir_place st (open_text path) = Some d -> get (root st) d = Some (NDir es) -> wf_node (root st) = true ->
+  exists dh, d_open st None path pat only = (Some dh, true) /\
+             d_read_all (read_all_fuel (Some dh)) st (Some dh) = (Some (dh_done dh), listing st path pat only es) /\
+             spec_list st path pat only = Some (listing st path pat only es).
+Proof. exact enumeration_exact. Qed.
+Print Assumptions enumeration_yields_exactly_the_entries.
+
+Theorem enumeration_refuses_non_directories : forall st path pat only,
+  dir_place st (open_text path) = None ->
+  d_open st None path pat only = (None, false) /\ spec_list st path pat only = None.
+Proof. exact enumeration_refused. Qed.
+Print Assumptions enumeration_refuses_non_directories.
+
+Theorem enumeration_object_protocol : forall st dh path pat only,
+  d_open st (Some dh) path pat only = (Some dh, false) /\
+  d_read st None = (None, None) /\
+  d_read st (Some (dh_done dh)) = (Some (dh_done dh), None) /\
+  d_close (Some dh) = None.
+Proof. exact enumeration_protocol. Qed.
+Print Assumptions enumeration_object_protocol.
+
+(* what the reference listing is: its pairs come from entries of the directory ... *)
+Theorem listed_entries_are_directory_entries : forall st path pat only es x,
+  In x (listing st path pat only es) <-> exists n, In (fst x, n) es /\ listed st path pat only (fst x, n) = Some x.
+Proof. exact listing_in. Qed.
+Print Assumptions listed_entries_are_directory_entries.
+
+(* ... no name twice ... *)
+Theorem no_entry_listed_twice : forall st path pat only es,
+  names_nodup (map fst es) = true -> NoDup (map fst (listing st path pat only es)).
+Proof. exact listing_nodup. Qed.
+Print Assumptions no_entry_listed_twice.
+
+(* ... and without pattern and dirsOnly all of them *)
+Theorem all_entries_listed_without_filter : forall st path es,
+  map fst (listing st path [] false es) = map fst es.
+Proof. exact listing_all. Qed.
+Print Assumptions all_entries_listed_without_filter.
+
+(* Directory::purge(path, true) on a real directory named by plain names: true, and the tree is
+   the reference tree - the directory cut out, then, going up, every ancestor below the current
+   directory that this has left empty *)
+Theorem purge_removes_tree_and_empty_parents : forall st names c es fuel,
+  Forall plain_name (names ++ [c]) ->
+  get (root st) ((cwd st ++ names) ++ [c]) = Some (NDir es) ->
+  wf_node (root st) = true -> (height (root st) <= fuel)%nat ->
+  d_purge fuel st (join (names ++ [c])) true = (set_root st (purged (root st) (cwd st) names c), true).
+Proof. exact purge_exact. Qed.
+Print Assumptions purge_removes_tree_and_empty_parents.
+
+(* the reference tree differs from the old one only inside the first name of the path: nothing
+   outside it changes (contents included), the starting directory stays, nothing new appears, the
+   directory itself is gone *)
+Theorem purge_touches_only_below_first_name : forall r base names c,
+  wf_node r = true ->
+  let top := base ++ [hd c names] in
+  let r' := purged r base names c in
+  wf_node r' = true /\
+  (forall q, is_prefix top q = false -> sget r' q = sget r q) /\
+  (forall q, is_prefix top q = false -> is_prefix q top = false -> get r' q = get r q) /\
+  (forall q, sget r' q = sget r q \/ sget r' q = None) /\
+  (forall q, get r' (((base ++ names) ++ [c]) ++ q) = None).
+Proof. exact purged_spec. Qed.
+Print Assumptions purge_touches_only_below_first_name.
+
+(* recursive Directory::unlink when any one of its system calls (rmdir, opendir, readdir, unlink)
+   fails, or none: true only with the exact cut, false only when a call did fail, and in every case
+   the tree afterwards is the old one minus removals inside that directory - nothing outside is
+   touched, nothing new appears *)
+Theorem unlink_with_failing_call_only_removes_inside : forall st names c es fuel o,
+  names_ok (names ++ [c]) ->
+  get (root st) ((cwd st ++ names) ++ [c]) = Some (NDir es) ->
+  wf_node (root st) = true -> (height (root st) <= fuel)%nat ->
+  exists st' b o', d_unlink_o fuel o st (join (names ++ [c])) true = (st', b, o') /\
+    cwd st' = cwd st /\ handles st' = handles st /\
+    (b = true -> st' = set_root st (upd (root st) ((cwd st ++ names) ++ [c]) None)) /\
+    (b = false -> o <> None) /\
+    wf_node (root st') = true /\
+    (forall q, is_prefix ((cwd st ++ names) ++ [c]) q = false -> sget (root st') q = sget (root st) q) /\
+    (forall q, is_prefix ((cwd st ++ names) ++ [c]) q = false -> is_prefix q ((cwd st ++ names) ++ [c]) = false ->
+               get (root st') q = get (root st) q) /\
+    (forall q, sget (root st') q = sget (root st) q \/ sget (root st') q = None).
+Proof. exact unlink_with_fault. Qed.
+Print Assumptions unlink_with_failing_call_only_removes_inside.
+
+(* a first rmdir that fails for another reason than "not empty": false and nothing touched, for
+   every path text *)
+Theorem unlink_failing_first_call_changes_nothing : forall fuel st p r,
+  d_unlink_o fuel (Some O) st p r = (st, false, None).
+Proof. exact unlink_first_call_fails. Qed.
+Print Assumptions unlink_failing_first_call_changes_nothing.
+
+(* ---- non-vacuity for round 3 ---------------------------------------------------------------------------- *)
+
+(* flush in a history: true, no byte and no cursor moves *)
+Example ex_flush :
+  let st1 := fst (f_open demo 0 [104] true true false true) in
+  snd (h_run st1 0 [HSeek 1 0; HFlush; HWrite [65]; HFlush; HSeek 0 0; HReadAll])
+  = [OInt 1; OBool true; OBool true; OBool true; OInt 0; OData true [120;65]].
+Proof. vm_compute. reflexivity. Qed.
+
+(* readAll("h") = "xy"; through the link a/l -> ../../out/s: readAll("a/l/k") = "K"; readAll("a"): false *)
+Example ex_read_all_path :
+  snd (f_readAll_path demo [104]) = (true, [120;121]) /\
+  snd (f_readAll_path demo [97;47;108;47;107]) = (true, [75]) /\
+  snd (f_readAll_path demo [97]) = (false, []) /\ snd (f_readAll_path demo [109]) = (false, []) /\
+  root (fst (f_readAll_path demo [104])) = root demo.
+Proof. vm_compute. repeat split; reflexivity. Qed.
+
+(* a dangling link exists for File::exists, not for Directory::exists *)
+Example ex_exists :
+  let st1 := fst (f_symlink demo [110;111] [100;108]) in
+  f_exists st1 [100;108] = true /\ d_exists st1 [100;108] = false /\ f_exists st1 [110;111] = false /\
+  f_exists st1 [97;47;102] = true.
+Proof. vm_compute. repeat split; reflexivity. Qed.
+
+(* "a/f" from /g1/g2/g3/in *)
+Example ex_absolute :
+  cwd_real demo /\ f_absolute demo [97;47;102] = [47;103;49;47;103;50;47;103;51;47;105;110;47;97;47;102] /\
+  resolve demo true (f_absolute demo [97;47;102]) = WAt (cwd demo ++ [[97]]) [102] (Some SFile).
+Proof.
+  assert (E : cwd demo = [G1; G2; G3; IN]) by (vm_compute; reflexivity).
+  split; [unfold cwd_real; rewrite E; split; [repeat constructor|eexists; vm_compute; reflexivity]|].
+  split; vm_compute; reflexivity.
+Qed.
+
+(* change to "a/l" (a link to ../../out/s): the current directory is out/s; "k" is then the file there *)
+Example ex_change :
+  let (st', b) := d_change demo [97;47;108] in
+  b = true /\ cwd st' = [G1; G2; G3; OUT; [115]] /\ snd (f_readAll_path st' [107]) = (true, [75]) /\
+  f_absolute st' [107] = [47;103;49;47;103;50;47;103;51;47;111;117;116;47;115;47;107].
+Proof. vm_compute. repeat split; reflexivity. Qed.
+
+(* listing "a": f (file), b (directory), l (a link that leads to the directory out/s); with
+   dirsOnly only b; with the pattern "?" all three, with "b*" only b *)
+Example ex_enumeration :
+  (exists d es, dir_place demo (open_text [97]) = Some d /\ get (root demo) d = Some (NDir es) /\ length es = 3%nat) /\
+  spec_list demo [97] [] false = Some [([102], false); ([98], true); ([108], true)] /\
+  spec_list demo [97] [] true = Some [([98], true)] /\
+  spec_list demo [97] [63] false = Some [([102], false); ([98], true); ([108], true)] /\
+  spec_list demo [97] [98;42] false = Some [([98], true)] /\
+  (let (cur, ok) := d_open demo None [97] [] false in
+   ok = true /\ snd (d_read_all (read_all_fuel cur) demo cur) = [([102], false); ([98], true); ([108], true)]) /\
+  spec_list demo [104] [] false = None.
+Proof.
+  split; [eexists; eexists; split; [vm_compute; reflexivity|split; vm_compute; reflexivity]|].
+  vm_compute. repeat split; reflexivity.
+Qed.
+
+Example ex_wildcards :
+  glob [42;46;116] [120;46;116] = true /\ glob [42;46;116] [120;46;117] = false /\ glob [63] [] = false /\
+  glob [42] [46] = true /\ matches [97;42] [97;98;99].
+Proof.
+  split; [reflexivity|]. split; [reflexivity|]. split; [reflexivity|]. split; [reflexivity|].
+  apply m_lit; try discriminate. apply m_star_more. apply m_star_more. apply m_star_none. apply m_nil.
+Qed.
+
+(* x/y/z, all empty: purge "x/y/z" takes x along; with x/keep in place x stays and x/y goes *)
+Definition demo2 : state := fs_run demo [OpCreate [120;47;121;47;122]].
+Example ex_purge :
+  Forall plain_name ([[120]; [121]] ++ [[122]]) /\
+  (exists es, get (root demo2) ((cwd demo2 ++ [[120]; [121]]) ++ [[122]]) = Some (NDir es)) /\
+  (let (st', ok) := d_purge (unlink_fuel demo2) demo2 [120;47;121;47;122] true in
+   ok = true /\ sget (root st') (cwd demo2 ++ [[120]]) = None /\ root st' = root demo) /\
+  (let st3 := fs_run demo2 [OpMkfile [120;47;107] [1]] in
+   let (st', ok) := d_purge (unlink_fuel st3) st3 [120;47;121;47;122] true in
+   ok = true /\ sget (root st') (cwd demo2 ++ [[120]; [121]]) = None /\
+   get (root st') (cwd demo2 ++ [[120]; [107]]) = Some (NFile [1])).
+Proof.
+  split; [repeat constructor|]. split; [eexists; vm_compute; reflexivity|].
+  split; vm_compute; repeat split; reflexivity.
+Qed.
+
+(* unlink "a" with the 7th call failing (rmdir, opendir, three readdirs, unlink a/f, readdir): false; by then a/f is gone, a/b is still there, and the
+   file behind the link a/l -> ../../out/s and in/h are untouched; with no failing call: true *)
+Example ex_unlink_fault :
+  (let '(st', ok, _) := d_unlink_o (unlink_fuel demo) (Some 6%nat) demo [97] true in
+   ok = false /\ sget (root st') (cwd demo ++ [[97]; [102]]) = None /\
+   sget (root st') (cwd demo ++ [[97]; [98]]) = Some SDir /\
+   get (root st') [G1; G2; G3; OUT; [115]; [107]] = Some (NFile [75]) /\
+   get (root st') (cwd demo ++ [[104]]) = Some (NFile [120;121])) /\
+  (let '(st', ok, _) := d_unlink_o (unlink_fuel demo) None demo [97] true in
+   ok = true /\ st' = fst (d_unlink (unlink_fuel demo) demo [97] true)).
+Proof. vm_compute. repeat split; reflexivity. Qed.
+
+(* the new operations keep every reachable tree well-formed as well *)
+Example ex_reachable_round3 :
+  wf_node (root (fs_run init_state [OpMkdir [97]; OpMkdir [97;47;98]; OpChdir [97]; OpPurge (Some 2%nat) [98] true;
+                                     OpDUnlinkO (Some 1%nat) [98] true; OpReadAllPath [98]])) = true.
+Proof. apply reachable_states_are_well_formed. Qed.
